@@ -22,14 +22,25 @@ type stepObs struct {
 }
 
 // runSeq executes a sequence on a fresh real model.
-func runSeq(cfg config, seq []op) []stepObs {
+func runSeq(cfg config, seq []op) []stepObs { return runSeqMon(nil, cfg, seq) }
+
+// runSeqMon also follows the model's PullModes / PullActiveMode streams from its creation; their events
+// are part of every step's observation, and (with a monitor) the subscriber's view is checked.
+func runSeqMon(m *lib.Monitor, cfg config, seq []op) []stepObs {
 	w := newWorldCfg(cfg)
+	w.subscribe(cfg)
+	defer w.streams.cancel()
 	obs := make([]stepObs, 0, len(seq))
-	for _, o := range seq {
+	hadActive := false
+	for i, o := range seq {
 		before := w.snapshot()
 		out, err, p := w.apply(o)
 		after := w.snapshot()
-		obs = append(obs, stepObs{Op: o, Out: out, State: w.stateString(after), Before: before, After: after, Err: err, Panic: p})
+		evs := w.collectEvents(m, map[string]any{"init": cfg, "ops": seq[:i+1]}, o, before, after, err, &hadActive)
+		obs = append(obs, stepObs{Op: o, Out: out, State: w.stateString(after) + evs, Before: before, After: after, Err: err, Panic: p})
+	}
+	if n := w.streams.modes.pending() + w.streams.active.pending(); n > 0 && m != nil {
+		m.Violate("C19/pull/unexpected-event", "a stream delivered an event although nothing observable changed", map[string]any{"init": cfg, "ops": seq}, "no further event", fmt.Sprint(n, " pending"))
 	}
 	return obs
 }
